@@ -488,3 +488,74 @@ func ruleDateRepr(c *Ctx, r *R) {
 		}
 	}
 }
+
+func init() {
+	register(&Rule{ID: "DATE-twodigit", Props: []string{"C12"}, Min: 1,
+		Doc: "P (ES5 15.9.3.1 step 8, 15.9.4.3 step 8): the two-digit-year window is `0 <= ToInteger(y) <= 99`. In every function of package otto that adds the constant 1900 to a year, the comparisons that guard the addition (with the constants 0 and 99) are made on a value that went through math.Trunc / math.Floor-of-positive / an integer conversion - not on the raw float, for which 99.9 and -0.9 fall outside the window (`Date.UTC(99.9, 0)` is the year 0099)",
+		Run: ruleDateTwoDigit})
+}
+
+func ruleDateTwoDigit(c *Ctx, r *R) {
+	n := 0
+	for _, fn := range c.AllSrcFuncs("") {
+		adds := false
+		for _, b := range fn.Blocks {
+			for _, ins := range b.Instrs {
+				if bo, ok := ins.(*ssa.BinOp); ok && bo.Op == token.ADD {
+					for _, o := range []ssa.Value{bo.X, bo.Y} {
+						if k, ok := o.(*ssa.Const); ok && k.Value != nil && k.Value.ExactString() == "1900" {
+							adds = true
+						}
+					}
+				}
+			}
+		}
+		if !adds {
+			continue
+		}
+		integral := func(v ssa.Value) bool {
+			for i := 0; i < 4; i++ {
+				switch y := v.(type) {
+				case *ssa.Call:
+					if callee := y.Call.StaticCallee(); callee != nil && callee.Pkg != nil && callee.Pkg.Pkg.Path() == "math" && (callee.Name() == "Trunc" || callee.Name() == "Floor") {
+						return true
+					}
+					return false
+				case *ssa.Convert:
+					if bt, ok := y.Type().Underlying().(*types.Basic); ok && bt.Info()&types.IsInteger != 0 {
+						return true
+					}
+					v = y.X
+					continue
+				case *ssa.Phi:
+					return false
+				}
+				break
+			}
+			if bt, ok := v.Type().Underlying().(*types.Basic); ok && bt.Info()&types.IsInteger != 0 {
+				return true
+			}
+			return false
+		}
+		for _, b := range fn.Blocks {
+			iff, ok := b.Instrs[len(b.Instrs)-1].(*ssa.If)
+			if !ok {
+				continue
+			}
+			bo, ok := iff.Cond.(*ssa.BinOp)
+			if !ok {
+				continue
+			}
+			k, isK := bo.Y.(*ssa.Const)
+			if !isK || k.Value == nil || k.Value.ExactString() != "99" {
+				continue
+			}
+			n++
+			r.check(integral(bo.X), "window:"+ssaFuncName(fn), c.Pos(instrPos(iff)), "the year compared with 99 is an integral value (ToInteger applied)",
+				ssaFuncName(fn)+" tests the two-digit-year window on the raw year: for 99 < y < 100 and -1 < y < 0 the test fails although ToInteger(y) is inside 0..99, so `Date.UTC(99.9, 0)` is the year 0099 instead of 1999 (ES5 15.9.4.3 step 8)")
+		}
+	}
+	if n == 0 {
+		r.undecided("sites", "-", "UNRESOLVED: no comparison with 99 in a function that adds 1900")
+	}
+}
